@@ -15,6 +15,9 @@ typedef struct { unsigned char *p; size_t n; } blob;
 
 /* ---- util.c ---- */
 void die(const char *fmt, ...) __attribute__((noreturn, format(printf, 1, 2)));
+/* coverage builds (./vf coverage) write their counters before a child leaves through _exit */
+void vf_cov_flush(void);
+#define VF_EXIT(c) do { vf_cov_flush(); _exit(c); } while(0)
 blob blob_new(size_t n);
 blob blob_dup(const void *p, size_t n);
 blob blob_from_file(const char *path);
